@@ -16,7 +16,8 @@ Record c04case := mkCase {
   c_raw : sresult;                      (* raw optlang values right after optimize() *)
   c_sol : option solution;              (* Solution returned by Model.optimize(); None = it raised *)
   c_slim_default : slimobs;             (* slim_optimize() *)
-  c_slim_ev : slimobs;                  (* slim_optimize(error_value = -7) *)
+  c_ev : Q;                             (* the caller's error value: -7, or a falsy one (0, 0.0, False) *)
+  c_slim_ev : slimobs;                  (* slim_optimize(error_value = c_ev) *)
   c_slim_none : slimobs;                (* slim_optimize(error_value = None) *)
   c_acc_ok : bool;                      (* per-object accessors equal the Solution's entries *)
   c_snap_ok : bool                      (* Solution unchanged by later edits / optimisations *)
@@ -59,7 +60,7 @@ Definition corr_ok (c : c04case) : bool :=
   | None => get_solution_raises has_primals (sr_status sr)
   end &&
   slim_agrees (slim_optimize exn_table sr true) (c_slim_default c) None &&
-  slim_agrees (slim_optimize exn_table sr true) (c_slim_ev c) (Some (-7)) &&
+  slim_agrees (slim_optimize exn_table sr true) (c_slim_ev c) (Some (c_ev c)) &&
   slim_agrees (slim_optimize exn_table sr false) (c_slim_none c) None.
 
 (* the property, on the implementation's own observations *)
@@ -80,7 +81,7 @@ Definition exn_ok (c : c04case) : bool :=
   match c_oracle c, c_slim_default c, c_slim_ev c with
   | OOpt _ _, SVal _, SVal _ => true
   | OOpt _ _, _, _ => false
-  | _, SNan, SVal q => Qeq_bool q (-7)
+  | _, SNan, SVal q => Qeq_bool q (c_ev c)
   | _, _, _ => false
   end.
 
